@@ -24,6 +24,7 @@ func Awkward() []*Grammar {
 	lit("comment", `*/`, `/*`, `//`)
 	lit("gokeywords", "func", "type", "range", "nil", "iota")
 	lit("control", "a\nb", "tab\tq", "cr\rx", "\n")
+	lit("illegal-in-go", "a\x00b", "x\ufeffy", "\x7f\x01", "\u2028", "\u200e")
 
 	// Go keywords and predeclared names as token names and regdef names
 	add(&Grammar{ID: "awk-toknames", Seps: wsSeps,
@@ -62,6 +63,17 @@ func Awkward() []*Grammar {
 				{Syms: S(`"c"`, "id"), Action: raw(`act.N(@ID@, $1 /* $0 in a comment, "quote */, '\\', "\\", "\"$1\"")`)},
 				{Syms: S(`"m"`, "id"), Action: raw(`act.N(@ID@, map[string]interface{}{"$0": $0, "x": []interface{}{$1}}["$0"])`)},
 			}}}})
+
+	// repetitions and options whose body can match the empty string (epsilon cycles)
+	add(&Grammar{ID: "awk-nullable-lex", Seps: []string{" "},
+		Lex: []LexDef{
+			{Kind: LexToken, Name: "a", Pattern: `{ { 'a' } } 'b'`, Samples: []string{"b", "ab", "aaab"}},
+			{Kind: LexToken, Name: "c", Pattern: `'c' [ [ 'd' ] ] { [ 'e' ] } ( { 'f' } | [ 'g' ] )`, Samples: []string{"c", "cd", "cdeef", "cg"}},
+			{Kind: LexRegDef, Name: "_opt", Pattern: `[ 'x' ] { 'y' }`},
+			{Kind: LexToken, Name: "h", Pattern: `'h' { _opt } [ { _opt } ]`, Samples: []string{"h", "hxyy", "hyx"}},
+			{Kind: LexIgnored, Name: "!sp", Pattern: `' ' { ' ' }`},
+		},
+		Prods: []*Prod{P("S", Al(Call()), Al(Call(A(0), T(1)), "S", "a"), Al(Call(A(0), T(1)), "S", "c"), Al(Call(A(0), T(1)), "S", "h"))}})
 
 	// production names that collide with identifiers of the generated code
 	add(&Grammar{ID: "awk-prodnames", Seps: wsSeps,
